@@ -508,6 +508,107 @@ pub fn shape_sweep(rep: &mut Report, thorough: bool) {
     rep.set("shape_sweep", json!({"values_of_the_grammar": values.len(), "documents": docs.len(), "failing_documents": failing, "outcomes": classes.into_inner().unwrap()}));
 }
 
+/// Every ordered PAIR of documents built from the depth-1 values of the same grammar (a flattened field changing
+/// from any shape to any other shape), with and without a commit between them: the second read must be exactly
+/// the second document, live and reopened. Documents of known-finding classes are left to the single sweep.
+pub fn shape_pair_sweep(rep: &mut Report, thorough: bool) {
+    use rayon::prelude::*;
+    let atoms: Vec<Value> = vec![json!("s"), json!("!b"), json!("^c"), json!(""), json!(1), json!(null), json!(true)];
+    let mut level0: Vec<Value> = atoms.clone();
+    level0.push(json!([]));
+    level0.push(json!({}));
+    let mut vals: Vec<Value> = level0.clone();
+    for v in &level0 {
+        vals.push(json!([v]));
+        vals.push(json!({"k": v}));
+        vals.push(json!({"_id": "x", "n♭": v}));
+        vals.push(json!({"_id": "x", "p": v}));
+        vals.push(json!({"_id": "y", "p": v}));
+        vals.push(json!({"q": v}));
+        vals.push(json!({"q♭": v}));
+    }
+    let more = vec![
+        json!([{"_id": "x", "p": 1}, {"_id": "y", "p": 1}]), json!([{"_id": "y", "p": 1}, {"_id": "x", "p": 1}]), json!([{"_id": "x", "p": 2}]),
+        json!([[{"_id": "x", "p": 1}], [{"_id": "y", "p": 1}]]), json!(["s", {"_id": "x", "p": 1}, 1]), json!([{"q": 1}, {"_id": "x", "p": 1}]),
+        json!({"_id": "x", "n♭": [{"_id": "y", "p": 1}]}), json!({"_id": "y", "n♭": [{"_id": "x", "p": 1}]}), json!([{"_id": "x", "n♭": ["s", "!b"]}]),
+    ];
+    vals.extend(more);
+    if thorough {
+        // thorough: one more level of wrapping around a few composite values
+        for v in [json!(["s"]), json!([1, "^c"]), json!({"k": "s"}), json!({"q": 1}), json!({"_id": "z", "p": 1}), json!([{"_id": "z", "p": 1}])] {
+            vals.push(json!([v]));
+            vals.push(json!({"k": v}));
+            vals.push(json!({"_id": "x", "n♭": v}));
+            vals.push(json!({"q♭": v}));
+            vals.push(json!([v, "s"]));
+        }
+    }
+    let docs: Vec<Value> = vals.iter().map(|v| json!({"f♭": v})).filter(|d| classify(d).is_none()).collect();
+    let n = docs.len();
+    let evals = std::sync::atomic::AtomicU64::new(0);
+    let bad: std::sync::Mutex<Vec<(usize, String, Value)>> = std::sync::Mutex::new(vec![]);
+    let idx: Vec<(usize, usize, bool)> = (0..n).flat_map(|a| (0..n).flat_map(move |b| [(a, b, false), (a, b, true)])).collect();
+    idx.par_iter().for_each(|&(a, b, commit_between)| {
+        let (d1, d2) = (docs[a].as_object().unwrap().clone(), docs[b].as_object().unwrap().clone());
+        let want = expect_tracked(&d2, &[]);
+        let st = crate::adapter::Store::new();
+        crate::guard::set_trace("C04 shape pair sweep");
+        let m = melda::melda::Melda::new(st.adapter()).unwrap();
+        evals.fetch_add(1, std::sync::atomic::Ordering::Relaxed);
+        let fail = |what: &str, detail: Value| {
+            bad.lock().unwrap().push((a * n + b, what.to_string(), json!({"input": {"first_document": docs[a], "commit_between": commit_between, "second_document": docs[b]}, "expected": want, "observed": detail})));
+        };
+        for (i, d) in [&d1, &d2].into_iter().enumerate() {
+            match crate::guard::call("update", || m.update(d.clone()).map_err(|e| e.to_string())) {
+                Ok(Ok(_)) => {}
+                Ok(Err(e)) => return fail("update-refused", json!({"error": e, "which": i})),
+                Err(p) => return fail("update-panicked", json!({"panic": p, "which": i})),
+            }
+            if i == 0 && commit_between {
+                match crate::guard::call("commit", || m.commit(None).map(|_| ()).map_err(|e| e.to_string())) {
+                    Ok(Ok(())) => {}
+                    Ok(Err(e)) => return fail("commit-failed", json!({"error": e})),
+                    Err(p) => return fail("commit-panicked", json!({"panic": p})),
+                }
+            }
+        }
+        let r1 = read_doc(&m);
+        if !r1.get("ok").is_some_and(|g| same_doc(&want, g)) {
+            return fail("second-read-differs-from-second-document", r1);
+        }
+        match crate::guard::call("commit", || m.commit(None).map(|_| ()).map_err(|e| e.to_string())) {
+            Ok(Ok(())) => {}
+            Ok(Err(e)) => return fail("commit-failed", json!({"error": e})),
+            Err(p) => return fail("commit-panicked", json!({"panic": p})),
+        }
+        let r2 = read_doc(&m);
+        if r2 != r1 {
+            return fail("commit-changed-the-read", json!({"before": r1, "after": r2}));
+        }
+        match fresh_on(&st.snapshot(), "C04 shape pair sweep reopen") {
+            Ok((m2, _)) => {
+                let r3 = read_doc(&m2);
+                if r3 != r2 {
+                    fail("reopened-read-differs", json!({"live": r2, "reopened": r3}));
+                }
+            }
+            Err(e) => fail("reopen-failed", json!({"error": e})),
+        }
+    });
+    let mut b = bad.into_inner().unwrap();
+    b.sort_by_key(|x| x.0);
+    let failing = b.len();
+    let mut seen = std::collections::BTreeSet::new();
+    for (_, what, detail) in b {
+        let sig = format!("C04:shape-pair-sweep:{}", what);
+        if seen.insert(sig.clone()) {
+            rep.violations.push(Violation { property: "C04".into(), signature: sig, scenario: "shape-pair-sweep".into(), history: vec![], detail });
+        }
+    }
+    rep.add_u64("evaluations", evals.load(std::sync::atomic::Ordering::Relaxed));
+    rep.set("shape_pair_sweep", json!({"documents": n, "ordered_pairs_x_commit_between": idx.len(), "failing": failing}));
+}
+
 pub fn run(thorough: bool) {
     let mut rep = Report::new("C04", if thorough { "thorough" } else { "quick" }, "model_checking");
     run_h(&mut rep, RunCfg {
@@ -520,6 +621,7 @@ pub fn run(thorough: bool) {
     });
     custom_root_sweep(&mut rep, thorough);
     shape_sweep(&mut rep, thorough);
+    shape_pair_sweep(&mut rep, thorough);
     rep.set("rule", json!("in EVERY distinct state (committed or staged, merged or not, object / array conflicts or not) and for EVERY document D of the menu (array edits, objects moving between arrays, flattened keys appearing / disappearing / changing kind, nested flattened arrays, id-less objects, '!'/'^' prefixed strings and ids, scalars, empty objects): update(D) then read(). If no array descriptor is in conflict the result must equal an independently computed expectation (D with _id added to each tracked object) exactly; otherwise the multiset of tracked objects and their contents must match. Then update(D) again: canonical replica state, stage export and read unchanged. In every state without staging: commit returns None, storage and state unchanged. distinct_nontrivial = distinct read results"));
     rep.assume("well-formed documents: explicit _id values are unique strings not starting with '^'; the root has no _id (objects without _id are in scope: identifiers are generated - see the known finding about several of them under one flattened field)");
     finalize(&mut rep);
